@@ -294,6 +294,21 @@ pub fn case(tape: &[u32]) -> CaseOutcome {
                     ));
                 }
             }
+            // duplicate scoped variable: the reference run knows which statement defined it first
+            if let (Some(prev), Some(last), 2, "DuplicateVariable") = (model.conflict_with, site.path.last(), ctxs.len(), variant_name(root_cause(&err))) {
+                if let (Some(lp), Some(ll)) = (locs.get(&prev), locs.get(last)) {
+                    let want: BTreeSet<(usize, usize)> = [(lp.row, lp.col), (ll.row, ll.col)].into_iter().collect();
+                    let got: BTreeSet<(usize, usize)> = ctxs.iter().map(|c| (c.statement_location.row, c.statement_location.column)).collect();
+                    if got != want {
+                        return CaseOutcome::Fail(Failure::new(
+                            "C20:lazy:conflict-names-wrong-statements",
+                            format!("the variable is defined twice by the statements at {:?}; the error names the statements at {:?}: {}", want.iter().map(|(r, c)| (r + 1, c + 1)).collect::<Vec<_>>(), got.iter().map(|(r, c)| (r + 1, c + 1)).collect::<Vec<_>>(), rendered),
+                            d(json!({})),
+                        ));
+                    }
+                    labels.push("lazy:duplicate-pair-from-the-reference-run".into());
+                }
+            }
             let v = variant_name(root_cause(&err));
             if (v == "DuplicateAttribute" || v == "DuplicateVariable") && ctxs.len() != 2 {
                 return CaseOutcome::Fail(Failure::new("C20:lazy:conflict-names-one-statement", format!("a conflict between two statements found during lazy evaluation names {} statement(s): {}", ctxs.len(), rendered), d(json!({}))));
